@@ -10,6 +10,7 @@ checks that the observation is *allowed* and applies it.  An observation that is
 the action with `Err.badObs` — a correspondence failure, not a behaviour.
 -/
 import Mmmbbb.Model.Basic
+import Mmmbbb.Extracted
 import Mmmbbb.Model.FilterSyntax
 import Mmmbbb.Model.Backoff
 namespace Mmmbbb
@@ -75,16 +76,26 @@ def predCands (db : Db) (s : Sub) (m : Msg) (now : Time) : List Delivery :=
       | some dm => dm.orderKey == m.orderKey
       | none => false
 
-def newestIn (cs : List Delivery) (d : Delivery) : Bool :=
-  cs.all fun e => decide (e.publishedAt ≤ d.publishedAt)
+/-- is some row waiting on `d` (its `not_before_id` names `d`)? -/
+def hasSucc (db : Db) (d : Delivery) : Bool := db.dels.any fun e => e.notBefore == some d.id
 
-/-- `ORDER BY published_at DESC LIMIT 1`: is `nb` an allowed answer? -/
+/-- the predecessor query has a second sort key (regenerated from the source): among rows with the
+    same publish time, rows nobody waits on come first.  Rows made in one transaction share their
+    publish time (several deliveries dead-lettered by one sweep, pull or nack): the newest of those is
+    the one at the end of the chain. -/
+def tieBreak : Bool := Extracted.predecessorOrder == ["Desc:PublishedAt", "Asc:HasSuccessor"]
+
+def newestIn (db : Db) (cs : List Delivery) (d : Delivery) : Bool :=
+  cs.all fun e => decide (e.publishedAt ≤ d.publishedAt) &&
+    (!tieBreak || !(e.publishedAt == d.publishedAt) || !hasSucc db d || hasSucc db e)
+
+/-- `ORDER BY published_at DESC, <somebody waits on it> LIMIT 1`: is `nb` an allowed answer? -/
 def predChoiceOk (db : Db) (s : Sub) (m : Msg) (now : Time) (nb : Option Id) : Bool :=
   if s.ordered && (match m.orderKey with | some k => k != "" | none => false) then
     let cs := predCands db s m now
     match nb with
     | none => cs.isEmpty
-    | some p => cs.any fun d => d.id == p && newestIn cs d
+    | some p => cs.any fun d => d.id == p && newestIn db cs d
   else nb.isNone
 
 /-- one delivery row created by `deliverToSubscription`, as observed -/
